@@ -42,7 +42,35 @@ def search_inflection(failure):
     return None
 
 
-SEARCHERS = {'inflection': search_inflection}
+PATH_WORDS = ['.', '..', 'a', 'b.ts', 'x.ts.ts', 'ts', 'c.d']
+
+
+def _rel_paths(maxdepth):
+    for n in range(1, maxdepth + 1):
+        for t in itertools.product(PATH_WORDS, repeat=n):
+            yield '/'.join(t)
+
+
+def search_paths(failure):
+    ob = failure['obligation']
+    reqs = []
+    if 'import_path' in ob or 'diff_paths' in ob or 'C08' in ob:
+        files = [p for p in _rel_paths(3) if not p.endswith('.') and not p.endswith('..')]
+        files = files[:60]
+        for f in files:
+            for i in files:
+                reqs.append({'op': 'import_path', 'from': 'bindings/' + f, 'import': 'bindings/' + i})
+        reqs = reqs[:4000]
+    ups = ['../' * k + 'x.ts' for k in range(0, 8)]
+    reqs += [{'op': 'absolute', 'path': p} for p in ups + list(_rel_paths(3))]
+    outs = batch(reqs)
+    for rq, o in zip(reqs, outs):
+        if not o.get('agree', True):
+            return {'request': rq, 'result': o}
+    return None
+
+
+SEARCHERS = {'inflection': search_inflection, 'paths': search_paths, 'paths_esm': search_paths}
 
 
 def search(pid, unit, failure, seed):
